@@ -320,6 +320,10 @@ fn run_all(run: &Run) {
         ex::<volute::Lut>(run, false, n);
         for_static!(n, ex(run, true, n));
     }
+    // the dynamic type beyond the largest fixed-size alias
+    for n in 13..=14usize {
+        ex::<volute::Lut>(run, false, n);
+    }
 }
 
 fn replay(path: &str) -> i32 {
